@@ -906,7 +906,26 @@ def run(tier, seed, only=None):
                                          meta={"part": "c", "N": 2, "roles": [OPS[r1], OPS[r2]], "fresh": False, "_roles": (r1, r2), "_opt": True}))
         if only:
             obls = [o for o in obls if only in o.name]
-        K.run_all(obls, jobs=6)
+        if not thorough:
+            # quick tier: the -DWITNESS twins run in parallel with their obligations (shorter critical path); same acceptance rule as kcommon
+            wit = []
+            for o in obls:
+                o.witness = False
+                w = K.Obligation(o.name + ":witness", o.files, defines=o.defines + ["WITNESS"], unwind=o.unwind, unwindset=o.unwindset, timeout=o.timeout,
+                                 includes=o.includes, mem_gb=o.mem_gb, witness=False, meta={"_of": o})
+                wit.append(w)
+            order = sorted(obls + wit, key=lambda x: (0 if "N=3" in x.name else 1 if "preempt" in x.name else 2 if "union" in x.name else 3))
+            K.run_all(order, jobs=6)
+            for w in wit:
+                o = w.meta["_of"]
+                o.wres = w.res
+                wf = [n_ for n_, d in (w.res.failed if w.res else []) if "witness" in d]
+                if o.verdict == "holds" and (w.res is None or w.res.status != "failed" or not wf or len(wf) != len(w.res.failed)):
+                    o.verdict = "inconclusive"
+                    o.why = "witness twin not reachable / not clean (status %s, failed %s): harness may be vacuous" % (
+                        w.res.status if w.res else None, (w.res.failed[:3] if w.res else None))
+        else:
+            K.run_all(obls, jobs=6)
         nprops = 0
         dropped = []
         # second round: where the plain obligation is violated, exclude the known stale-rank class by assumption and re-prove the rest
